@@ -549,6 +549,25 @@ pub fn units() -> Vec<Unit> {
             IoMode(false),
         ],
     },
+    // builder E: `calibrate_image` of the SX126x (array element assignment inside an `if` chain)
+    Unit {
+        module: "Gen.PhyEncE126Cal",
+        file: "lora-phy/src/sx126x/mod.rs",
+        more_files: vec!["lora-phy/src/sx126x/variant.rs", "lora-phy/src/sx126x/radio_kind_params.rs", "lora-phy/src/mod_params.rs", "lora-modulation/src/lib.rs"],
+        imports: vec!["LoraVerif.RtPhy", "LoraVerif.Gen.PhyCodes126", "LoraVerif.Gen.PhyArith", "LoraVerif.Gen.PhyErr"],
+        items: vec![
+            ExternUnit("Gen.PhyCodes126"),
+            ExternUnit("Gen.PhyArith"),
+            ExternUnit("Gen.PhyErr"),
+            Struct("Sx1262"),
+            Alias("C", "Sx1262"),
+            Struct("Config"),
+            StructPartial("Sx126x", &["config"]),
+            IoMode(true),
+            TraitFn("RadioKind", "Sx126x", "calibrate_image"),
+            IoMode(false),
+        ],
+    },
     // ---- builder N (tie A for more stateful methods)
     // C11: `Otaa::handle_rx` — the join step.  The crypto stays abstract: the radio buffer is what
     // `check_mic_and_decrypt_in_place` yields on it under a key (`none` = `Err`), the decrypted view exposes
